@@ -385,13 +385,11 @@ def link_judge(case, res):
             if t is not None:
                 failed_hl_targets.add(t)
     # final structures, addresses renamed to model ids
-    path2id = {"": 0}
-    for i, (op, r) in enumerate(zip(case["ops"], res["results"])):
-        if op["op"] == "mkgroup" and r.get("ok"):
-            path2id[op["path"]] = i + 1
+    # registered groups come back in creation order: the root, then one per successful mkgroup
+    gids = [0] + [i + 1 for i, (op, r) in enumerate(zip(case["ops"], res["results"])) if op["op"] == "mkgroup" and r.get("ok")]
     groups = []
-    for g in res["groups"]:
-        gid = path2id.get(g["path"])
+    for k, g in enumerate(res["groups"]):
+        gid = gids[k] if k < len(gids) else None
         if (g.get("err") or gid is None) and hl_to_link:
             known.add("C03-hardlink-to-link-object")
             in_spec = False
@@ -457,8 +455,36 @@ def c_uop(op):
     return 'ULink (unhex "%s") (unhex "%s") %d' % (op["parent"], op["name"], op["child"])
 
 
-def c_link(case, res, groups, rcs):
-    return 'link_ok go_cfg [%s] [%s] [%s] [%s]' % (
+def source_cfg():
+    """Thresholds and repair switches of the model, read from the source tree that is being checked
+    (fails loudly when a pattern no longer matches: then the tie itself is broken)."""
+    import re
+    def src(rel):
+        return open(os.path.join(vlib.REPO, rel)).read()
+    gw, lw = src("group_write.go"), src("link_write.go")
+    m1 = re.search(r"func \(fw \*FileWriter\) createGroupStructures\(\).*?structures\.NewLocalHeap\((\d+)\).*?structures\.NewSymbolTableNode\((\d+)\)", gw, re.S)
+    m2 = re.search(r"stNode\.WriteAt\(fw\.writer, stNodeAddr, offsetSize, (\d+),", gw)
+    if not m1 or not m2 or m1.group(2) != m2.group(1):
+        raise RuntimeError("c03unit: cannot extract the heap size / node capacity from group_write.go")
+    link_body = gw[gw.index("func (fw *FileWriter) linkToParent("):]
+    link_body = link_body[:link_body.index("\n}\n")]
+    cg = gw[gw.index("func (fw *FileWriter) CreateGroup("):]
+    cg = cg[:cg.index("\n}\n")]
+    wr = lw[lw.index("func writeV2RefCount("):]
+    wr = wr[:wr.index("\n}\n")]
+    strict = ('childName == ""' in link_body) and ("IndexByte(childName, 0)" in link_body)
+    canon = 'path = strings.TrimSuffix(path, "/")' in cg
+    rcfix = "hasRefCountMessage(oh)" in wr
+    return dict(heap_cap=int(m1.group(1)), snod_cap=int(m1.group(2)), soft_max=244, strict_names=strict, canon_group_key=canon, rc_rollback_fix=rcfix)
+
+
+def c_cfg(cfg):
+    return "{| heap_cap := %d; snod_cap := %d; soft_max := %d; strict_names := %s; canon_group_key := %s; rc_rollback_fix := %s |}" % (
+        cfg["heap_cap"], cfg["snod_cap"], cfg["soft_max"], vlib.cbool(cfg["strict_names"]), vlib.cbool(cfg["canon_group_key"]), vlib.cbool(cfg["rc_rollback_fix"]))
+
+
+def c_link(case, res, groups, rcs, cfg):
+    return 'link_ok %s [%s] [%s] [%s] [%s]' % (c_cfg(cfg), 
         ";".join(c_uop(o) for o in case["ops"]), ";".join(vlib.cbool(bool(r.get("ok"))) for r in res["results"]),
         ";".join('(%d, %s, [%s])' % (g, c_data(d), ";".join("(%d,%d)" % e for e in ents)) for g, d, ents in groups),
         ";".join("(%d,%d)" % x for x in rcs))
@@ -495,6 +521,7 @@ def run_unit(ctx, n_struct=None, n_link=None):
     os.makedirs(builddir, exist_ok=True)
     viol, known, samples = [], {}, []
     t0 = time.time()
+    cfg = source_cfg()
 
     # ---- struct stream
     scases = [dict(mode="struct", cap=256, scap=32, k=1, reload=True, names=[hx(n) for n in nm], _names=nm) for nm in (
@@ -560,7 +587,7 @@ def run_unit(ctx, n_struct=None, n_link=None):
             continue
         v, kn, groups, rcs, in_spec, hl2l = link_judge(c, r)
         judged[i] = (v, kn, in_spec, hl2l)
-        terms.append(c_link(c, r, groups, rcs))
+        terms.append(c_link(c, r, groups, rcs, cfg))
         idx.append(i)
         distinct.add(("link", tuple((o["op"], o.get("path"), o.get("target"), o.get("name")) for o in c["ops"])))
         for o, x in zip(c["ops"], r["results"]):
@@ -587,14 +614,19 @@ def run_unit(ctx, n_struct=None, n_link=None):
             samples.append(dict(case=dict(ops=[(o["op"], bytes.fromhex(o.get("path", o.get("name", ""))).decode("latin1"),
                                                 bytes.fromhex(o.get("target", "")).decode("latin1")) for o in c["ops"]][:12]),
                                 impl=[("ok" if x.get("ok") else err_class(x.get("err", ""))) for x in r["results"]][:12]))
-    known_lines = []
+    # a class is a finding only while the tree still has the defect; with the repair in the source the
+    # same inputs are merely inputs the structures are never given (struct stream) / normalised paths
+    repaired = {"C03-empty-name": cfg["strict_names"], "C03-nul-name": cfg["strict_names"],
+                "C03-refcount-after-failed-hardlink": cfg["rc_rollback_fix"], "C03-path-syntax": True}
+    known_lines, notes = [], []
     listed = {k["id"] for k in vlib.known_findings("C03")}
     for k, d in sorted(known.items()):
         d["listed"] = k in listed
-        known_lines.append("%s: %s (%d cases this run)" % (k, KNOWN.get(k, "path outside the specification's syntax accepted"), d["count"]))
-    return dict(violations=viol, known=known_lines, known_detail=known, evaluations=len(scases) + len(lcases),
+        line = "%s: %s (%d cases this run)" % (k, KNOWN.get(k, "path outside the specification's syntax (e.g. \"/a/\", \"//d\") accepted and normalised"), d["count"])
+        (notes if repaired.get(k) else known_lines).append(line)
+    return dict(violations=viol, known=known_lines, notes=notes, known_detail=known, evaluations=len(scases) + len(lcases),
                 distinct=len(distinct), samples=samples, struct_cases=len(scases), link_cases=len(lcases),
-                spec_checked_struct=nspec, link_calls=opmix, wall_s=round(time.time() - t0, 1),
+                spec_checked_struct=nspec, link_calls=opmix, wall_s=round(time.time() - t0, 1), model_cfg=cfg,
                 rule="a case is distinct by (heap size, cycle period, names) resp. by its call sequence; every case is evaluated by Go, by the Coq model (vm_compute) and by the Python oracle")
 
 
@@ -625,6 +657,8 @@ if __name__ == "__main__":
         vlib.cleanup()
     for k in res["known"]:
         print("KNOWN-FINDING: property=C03 " + k)
+    for k in res["notes"]:
+        print("note: " + k)
     for v in res["violations"][:10]:
         print("VIOLATION", v["what"])
         print("   ", json.dumps(v.get("failing_input") or v.get("case"))[:600])
